@@ -495,11 +495,8 @@ def oracle(case, res):
         got = sorted(sorted(map(str, row_ids(case, r))) for r in res["lwp"])
         if want != got:
             bad.append(("pairs", None, "pairs scored for the label column differ from (found by rules) U (same label)"))
-    # thresholds reported = distinct adjusted scores >= -998
-    want_thr = sorted({adj(case, r) for r in rows if adj(case, r) >= -998})
-    got_thr = [Fraction(r["truth_threshold"]) for r in res["table"]]
-    if want_thr != got_thr:
-        bad.append(("thresholds", "truth_threshold", f"reported {[float(x) for x in got_thr]} expected {[float(x) for x in want_thr]}"))
+    # (which thresholds are listed is not part of the property: the Coq correspondence compares
+    #  the row sets; here every LISTED row is recounted)
     prev = None
     for r in res["table"]:
         t = Fraction(r["truth_threshold"])
